@@ -23,7 +23,7 @@ RULE = (
     "cause at every loop iteration (both positions) of 14 golden scenarios, and every closing trailer x cut of the "
     "hello answer. Oracle: rank(state) never decreases, nothing follows CLOSED, is_connected == (state is CONNECTED) at "
     "every write and every loop turn, a phase that returns normally is in its target state, a used connection object "
-    "refuses both phases with RuntimeError and opens no socket, and a start_connection() overlapping the first one (state still INITIALIZED) does not return normally. non-trivial = a CLOSED write precedes the end of the "
+    "refuses both phases with RuntimeError and opens no socket, and a start_connection() overlapping the first one (state still INITIALIZED) does not return normally; once the transport has reported EOF or connection_lost(error) no state other than CLOSED is written. non-trivial = a CLOSED write precedes the end of the "
     "connecting task (a close took effect while connecting)."
 )
 ASSUMPTIONS = [
@@ -57,6 +57,7 @@ def enumerated(tier):
         for d in (["ok", ["10.1.0.1"], 8], ["ok", ["10.1.0.1"], 1]):
             for ev in ({"at": 2}, {"at": 6}, {"at": 10}, {"it": 2}, {"it": 3}, {"it": 4}):
                 yield {**sc, "addresses": ["a.example.com"], "dns": {"a.example.com": d}, "overlap_probe": True, "events": [{"do": "reuse_start", **ev}]}
+    yield from life.slow_hello_disconnect_sweep()
     yield from life.hello_trailer_sweep()
     yield from life.sock_fault_sweep()
     yield from life.resolve_stage_sweep()
